@@ -70,6 +70,8 @@ def run(ck, F, E):
     statement_checks(ck, F)
     user_functions(ck, F)
     fn_syntax_agreement(ck, F)
+    def_before_body(ck, F)
+    runtime_kind_checks(ck, F, E)
     def_recorded(ck, F)
     resolution_order(ck, F)
     jump_targets(ck, F)
@@ -575,6 +577,33 @@ def fn_syntax_agreement(ck, F):
                    "both forks consume the same tokens (the %s's extra step is the body evaluation)" % longer,
                    "the two forks parse %s differently:\n    interpreter: %s\n    analyzer:    %s\n  calls with a wrong number of "
                    "arguments (or malformed DEF headers) are accepted by one fork and rejected by the other" % (fn, sa, sb), b.span)
+
+
+def runtime_kind_checks(ck, F, E):
+    """The converse direction needs the interpreter to enforce at run time what the analyzer enforces statically: a value stored
+    under a name has the name's kind.  The interpreter's only enforcement point is Variables::set (validated against the name);
+    a second, unchecked way into the variable map (a `set_number` fast path for loop counters) makes `FOR I$ = 1 TO 3` run while the
+    analyzer keeps rejecting it."""
+    ws = E.writers_of_field("variables::Variables", "0")
+    ck.require(bool(ws) and all(sfx(n, "Variables::set") for n in ws), "C06:KIND:variables-only-through-the-validated-setter",
+               "paired kind checks", "Variables' map is modified only in Variables::set",
+               "the variable map is also modified in %s: values can be stored without the kind check the analyzer's verdicts rely on" %
+               sorted(n for n in ws if not sfx(n, "Variables::set")))
+
+
+def def_before_body(ck, F):
+    """At run time a function exists from the moment its DEF executes; the analyzer mirrors that by recording the DEF before it
+    analyses the body, so a body that mentions its own name is resolved as the function call it will be (arity and argument
+    kinds checked), not as an array access."""
+    b = F.bodies.get(AN_S + "::evaluate_def_statement")
+    if b is None:
+        return
+    df = b.calls_to("Program::define_function")
+    ev = [c for c in b.calls() if c.callee.endswith("::evaluate_expression")]
+    ok = bool(df) and bool(ev) and all(any(b.dominates(d.bb, e.bb) and d.bb != e.bb for d in df) for e in ev)
+    ck.require(ok, "C06:FN:def-recorded-before-body", "user functions", "the analyzer records the DEF before analysing its body",
+               "the analyzer analyses a DEF's body before the function is recorded: a self-reference in the body is treated as an "
+               "array access, so wrong argument counts / kinds in it pass the check and fail at run time", b.span)
 
 
 def def_recorded(ck, F):
